@@ -79,7 +79,7 @@ Result execute(const Plan &p) {
     std::vector<double> f = gen::make_vector(n, (uint64_t)p.get("vseed"), (int)p.get("rhs_kind")), x(n, 0.0), f2 = gen::make_vector(n, (uint64_t)p.get("vseed") + 9, 0);
     if (p.get("x0") == 1) x = gen::make_vector(n, (uint64_t)p.get("vseed") + 5, 0);
     if (p.get("x0") == 2) { x = gen::make_vector(n, (uint64_t)p.get("vseed") + 5, 0); for (long i = 0; i < n; ++i) x[i] *= 1e6; }
-    double x0inf = max_abs(x), pamp = 1;
+    double x0inf = max_abs(x), pamp = 1, plin = 0, pnrm = 1;
     size_t iters = 0; double resid = 0; std::string exc; size_t nlevels = 0; std::vector<double> pr(n, 0.0); double pnorm = 0; bool constructed = false;
     sim::RunStatus st = world(nt, p.sched, [&]() {
         try {
@@ -92,6 +92,14 @@ Result execute(const Plan &p) {
                 std::vector<double> u(n, 0.0); S.precond().apply(f, u); double w = 0, fi = 0;
                 for (long i = 0; i < n; ++i) { long double t = 0; for (ptrdiff_t j = A.ptr[i]; j < A.ptr[i+1]; ++j) t += (long double)A.val[j] * u[A.col[j]]; w = std::max(w, std::fabs((double)t)); fi = std::max(fi, std::fabs(f[i])); }
                 pamp = (w == w && fi > 0) ? std::max(1.0, w / fi) : std::numeric_limits<double>::infinity();
+                // numerical consistency of the preconditioner itself: a cycle through a nearly singular coarse operator is linear
+                // only up to its own rounding amplification, and no residual recurrence can be more accurate than that
+                std::vector<double> g = f2, h(n), ug(n, 0.0), uh(n, 0.0);
+                for (long i = 0; i < n; ++i) h[i] = 2 * f[i] - 0.5 * g[i];
+                S.precond().apply(g, ug); S.precond().apply(h, uh);
+                double sc = 0, er = 0; for (long i = 0; i < n; ++i) { sc = std::max(sc, std::max(std::fabs(u[i]), std::fabs(ug[i]))); er = std::max(er, std::fabs(uh[i] - (2 * u[i] - 0.5 * ug[i]))); }
+                plin = (sc > 0 && er == er) ? er / sc : std::numeric_limits<double>::infinity();
+                pnrm = fi > 0 ? max_abs(u) / fi : 1;
             }
             if (left) {   // the preconditioned true residual, with the same preconditioner object
                 std::vector<double> r(n); for (long i = 0; i < n; ++i) { long double t = f[i]; for (ptrdiff_t j = A.ptr[i]; j < A.ptr[i+1]; ++j) t -= (long double)A.val[j] * x[A.col[j]]; r[i] = (double)t; }
@@ -114,6 +122,7 @@ Result execute(const Plan &p) {
         // (the initial guess enters too: r0 = f - A x0 carries an absolute error u*|A|*|x0| through every recurrence)
         double delta = (double)(200.0L * (iters + 1) * n * 1.2e-16L * (ainf * std::max(xinf, (long double)x0inf) / (finf > 0 ? finf : 1) + 1));
         delta *= pamp;                           // a preconditioner that amplifies by 1e6 costs six digits
+        delta += 100 * plin * (double)(1 + ainf * std::max(xinf, (long double)x0inf) / (finf > 0 ? finf : 1) + pnrm);     // measured linearity defect of P
         if (left) delta *= 100;                  // one extra application of a possibly ill-conditioned preconditioner
         bool usable = x_finite && delta < 0.1 * tol;
         long slack = solver == 2 ? L - 1 : 0;
